@@ -197,6 +197,35 @@ pub fn run(ctx: &Ctx, sh: &mut Shard) {
         if a.n_segments() + b.n_segments() > 90 {
             continue;
         }
+        // one case in nine: a closed line string with one side cut into 3-5 collinear segments, written from a vertex in the
+        // MIDDLE of that run, against a line / line string lying along the side (contains / within walk the run across
+        // the start of the ring)
+        let (a, b) = if k % 9 == 4 {
+            let (w, h) = (r.range(4, 9), r.range(1, 5));
+            let mut cuts: Vec<i64> = (1..w).collect();
+            r.shuffle(&mut cuts);
+            cuts.truncate(r.range(2, 4) as usize);
+            cuts.sort();
+            // ring: (0,0) -> cuts along the bottom -> (w,0) -> (w,h) -> (0,h) -> back
+            let mut ring: Vec<IP> = vec![(0, 0)];
+            ring.extend(cuts.iter().map(|&x| (x, 0)));
+            ring.extend([(w, 0), (w, h), (0, h)]);
+            let start = 1 + r.below(cuts.len() as u64) as usize; // one of the cut vertices
+            ring.rotate_left(start);
+            if r.chance(1, 2) {
+                ring.reverse();
+            }
+            let f = ring[0];
+            ring.push(f);
+            let (x0, x1) = (r.range(0, w - 1), 0);
+            let x1 = r.range(x0 + 1, w) + x1;
+            let b = if r.chance(1, 2) { IG::Line((x0, 0), (x1, 0)) } else { IG::LineString(vec![(x1, 0), ((x0 + x1) / 2, 0), (x0, 0)].into_iter().collect::<Vec<_>>()) };
+            sh.class("stratum:closed_linestring_started_inside_a_collinear_run");
+            let b = if b.valid() { b } else { IG::Line((x0, 0), (x1, 0)) };
+            (IG::LineString(ring), b)
+        } else {
+            (a, b)
+        };
         // one case in three: an operand re-spelt (same point set: other type, permuted members, an EMPTY member
         // somewhere in a Multi* / collection, ...)
         let (a, b) = if k % 3 == 1 {
